@@ -309,6 +309,10 @@ func (c *Context) HandleEnvelop(envelop vivid.Envelop) {
 	currentState := atomic.LoadInt32(&c.state)
 	killingOrKilled := (currentState == killed) || (!envelop.System() && currentState != running) // 是否处于停止中或死亡状态
 	if killingOrKilled && !c.zombie {                                                             // 是否处于僵尸状态
+		if _, isDeathLetter := envelop.Message().(ves.DeathLetterEvent); isDeathLetter {
+			// 死信本身无法投递（系统已停止）时直接丢弃，否则会在已停止的根 Actor 上无限循环投递
+			return
+		}
 		c.system.TellSelf(ves.DeathLetterEvent{
 			Envelope: envelop,
 			Time:     time.Now(),
